@@ -142,6 +142,55 @@ theorem c15_client_agnostic {σ μ : Type} (W : Wire σ μ) (conv : List (Exchan
   rw [c15_carrier_agnostic W conv c₁ c₂ p₁ p₂ h₁ h₂ v₁ v₂]
   exact ⟨rfl, rfl⟩
 
+/-- **One result per operation.**  Whatever the server does, a sequence of operations hands back
+exactly one result (a value or an exception) per operation, in order — none is dropped, none is
+answered twice — and the operation counter advances by exactly the number of operations. -/
+theorem c15_client_one_result_per_op (a : Answers ι ρ ε) (st : St ι) (ops : List Op) :
+    (run a st ops).2.1.length = ops.length ∧ (run a st ops).1.nOp = st.nOp + ops.length := by
+  induction ops generalizing st with
+  | nil => simp [run]
+  | cons op ops ih =>
+    obtain ⟨i1, i2⟩ := ih (step a st op).1
+    refine ⟨by simp [run, i1], ?_⟩
+    simp only [run, i2, List.length_cons]
+    simp only [step]
+    omega
+
+/-- **`connect_to_server`.**  The context initialises exactly once on entry.  If that
+`initialize` fails, its exception is the only result, the one request is all the transport ever
+saw and no operation of the body ran; if it succeeds with version `v`, the transport sees the
+request, `set_protocol_version(v)`, and then only the body's own helpers (at most one request per
+operation, never a second `initialize`), with one result per operation after the entry result. -/
+theorem c15_connect_shape (a : Answers ι ρ ε) (ops : List Op) :
+    (∀ e, a.inits 0 = .error e → (connect a ops).2 = ([.raised e], [.request .init]))
+    ∧ (∀ v info, a.inits 0 = .ok (v, info) →
+        ∃ rest, (connect a ops).2.2 = Ev.request .init :: Ev.setVersion v :: rest
+          ∧ rest.all isOtherReq = true ∧ rest.length ≤ ops.length
+          ∧ (connect a ops).2.1.length = 1 + ops.length
+          ∧ (connect a ops).2.1.head? = some (.initialized v info)
+          ∧ (connect a ops).1.nInit = 1) := by
+  constructor
+  · intro e he
+    simp [connect, initOp, St.fresh, he]
+  · intro v info hv
+    have hst : ({ initialized := true, info := some info, nInit := 1, nCall := 0, nOp := 0 } : St ι).initialized = true := rfl
+    obtain ⟨r1, r2, r3⟩ := run_initialized a _ ops hst
+    have hn : ∀ (st : St ι) (ops : List Op), st.initialized = true → (run a st ops).1.nInit = st.nInit := by
+      intro st ops
+      induction ops generalizing st with
+      | nil => intro _; simp [run]
+      | cons op ops ih =>
+        intro h
+        obtain ⟨s1, s2, _, _⟩ := step_initialized a st op h
+        simp only [run]
+        rw [ih _ s1, s2]
+    refine ⟨(run a { initialized := true, info := some info, nInit := 1, nCall := 0, nOp := 0 } ops).2.2, ?_, r2, r3, ?_, ?_, ?_⟩
+    · simp [connect, initOp, St.fresh, hv]
+    · simp [connect, initOp, St.fresh, hv, (c15_client_one_result_per_op a _ ops).1]; omega
+    · simp [connect, initOp, St.fresh, hv]
+    · simp [connect, initOp, St.fresh, hv]
+      exact hn _ ops hst
+
 /-- non-vacuity: the first `initialize` is refused, the second answers version "2025-06-18"; a
 tool call, an explicit `initialize`, a prompt listing -/
 def exAnswers : Answers Nat Nat String :=
@@ -154,6 +203,9 @@ example : (run exAnswers St.fresh [.callTool, .callTool, .init, .listPrompts, .c
     ∧ (run exAnswers St.fresh [.callTool, .callTool, .init, .listPrompts, .callTool, .listTools]).1.nInit = 2
     ∧ (run exAnswers St.fresh [.callTool, .callTool, .init, .listPrompts, .callTool, .listTools]).1.nCall = 3 := by
   decide
+
+example : (connect exAnswers [.callTool]).2 = ([.raised "refused"], [.request .init]) :=
+  (c15_connect_shape exAnswers [.callTool]).1 "refused" rfl
 
 end client
 
